@@ -13,10 +13,12 @@ open BsVerif.Gen.Regs
 
 /-! ## Reads -/
 
-/-- **Exact characterisation of `read_memory_by_pid`.**  The read succeeds iff the whole span of
-`ceil(n/8)` words `[a, a + 8·ceil(n/8))` is mapped, and then returns exactly the bytes `mem[a, a+n)`. -/
+/-- **Exact characterisation of `read_memory_by_pid`, no assumption on the mappings.**  The read returns
+the bytes `mem[a, a+n)` or fails; it succeeds iff the requested bytes are mapped and — only for a read
+shorter than one word — one of the two words `[a, a+8)`, `[a+n-8, a+n)` is mapped (`TailOk`). -/
 theorem C15_read_spec (m : Mem) (a n : Nat) :
-    readMemory m a n = if (bytesAt m a (readSpan n)).isSome then bytesAt m a n else none :=
+    (readMemory m a n = bytesAt m a n ∨ readMemory m a n = none) ∧
+    ((readMemory m a n).isSome = true ↔ MappedRange m a n ∧ TailOk m a n) :=
   read_spec m a n
 
 /-- **C15_read_exact.**  When the read succeeds it returns exactly `n` bytes and they are the bytes the
@@ -25,38 +27,31 @@ theorem C15_read_exact (m : Mem) (a n : Nat) (bs : List Byte) (h : readMemory m 
     bs.length = n ∧ ∀ i, i < n → m (a + i) = bs[i]? :=
   read_exact m a n bs h
 
-/-- the exact success condition of the read **as implemented**: the word span must be mapped. -/
-theorem C15_read_success_iff (m : Mem) (a n : Nat) :
-    (readMemory m a n).isSome = true ↔ MappedRange m a (readSpan n) :=
-  read_success_iff m a n
+/-- **The exact success condition: the requested bytes are mapped** (page-granular mappings, as the
+kernel's are). -/
+theorem C15_read_success_iff (m : Mem) (a n : Nat) (hp : PageGranular m) :
+    (readMemory m a n).isSome = true ↔ MappedRange m a n :=
+  read_success_iff m a n hp
 
-/-- The property at full strength: a read of a mapped range succeeds (even with page-granular mappings). -/
-def C15_read_total_full : Prop :=
-  ∀ (m : Mem) (a n : Nat), PageGranular m → MappedRange m a n → (readMemory m a n).isSome = true
-
-/-- what does hold: the read succeeds when the whole word span is mapped … -/
-theorem C15_read_total_partial (m : Mem) (a n : Nat) (h : MappedRange m a (readSpan n)) :
+/-- **C15_read_total** (full strength; false before the repair of the tail word): a read of a mapped
+range succeeds and returns exactly its bytes. -/
+theorem C15_read_total (m : Mem) (a n : Nat) (hp : PageGranular m) (h : MappedRange m a n) :
     ∃ bs, readMemory m a n = some bs ∧ bs.length = n ∧ ∀ i, i < n → m (a + i) = bs[i]? :=
-  read_total_partial m a n h
+  read_total m a n hp h
 
-/-- … in particular for every length that is a multiple of the word size. -/
-theorem C15_read_total_words (m : Mem) (a n : Nat) (h8 : n % 8 = 0) (h : MappedRange m a n) :
+/-- from one word on (and for whole words) not even page granularity is needed: every word that is
+fetched lies inside `[a, a+n)`. -/
+theorem C15_read_total_long (m : Mem) (a n : Nat) (h8 : 8 ≤ n ∨ n % 8 = 0) (h : MappedRange m a n) :
     (readMemory m a n).isSome = true :=
-  read_total_words m a n h8 h
+  read_total_long m a n h8 h
 
-/-- witness memory `onePageL` (Lemmas/MemIO.lean): exactly one page `[4096, 8192)` mapped, every byte 0;
-the witness read is `a = 8189`, `n = 3`: the last three bytes of the mapping. -/
-theorem C15_read_witness : PageGranular onePageL ∧ MappedRange onePageL 8189 3 ∧ readMemory onePageL 8189 3 = none :=
-  ⟨onePageL_granular, onePageL_mapped_tail, onePageL_read_fails⟩
-
-/-- **The unchanged code violates the full statement**: the last 3 bytes of a mapping are mapped, the
-read of them fails (the single word peek at 8189 runs 5 bytes past the page).  Replayed on the real
-code by the harness: oracle key `read-tail-of-mapping-eio`. -/
-theorem C15_read_total_counterexample : ¬ C15_read_total_full := by
-  intro h
-  have hs := h onePageL 8189 3 onePageL_granular onePageL_mapped_tail
-  rw [onePageL_read_fails] at hs
-  exact absurd hs (by decide)
+/-- the witness of the repaired defect `read-tail-of-mapping-eio` (memory `onePageL`: exactly one page
+`[4096, 8192)` mapped; read `a = 8189`, `n = 3`, the last three bytes of the mapping — the single word
+peek at 8189 ran 5 bytes past the page) now succeeds.  Replayed on the real code by `corpus/C15`. -/
+theorem C15_read_witness : PageGranular onePageL ∧ MappedRange onePageL 8189 3 ∧
+    (readMemory onePageL 8189 3).isSome = true :=
+  ⟨onePageL_granular, onePageL_mapped_tail,
+    (read_success_iff onePageL 8189 3 onePageL_granular).2 onePageL_mapped_tail⟩
 
 /-! ## Writes -/
 
@@ -105,10 +100,9 @@ theorem C15_poke_exact (m : Mem) (a w : Nat) :
   poke_exact m a w
 
 /-- a write followed by a read of the same range returns the written bytes. -/
-theorem C15_write_then_read (m : Mem) (a : Nat) (bs : List Byte) (m' : Mem)
-    (h : writeBytesDap m a bs = .ok m') (hspan : MappedRange m a (readSpan bs.length)) :
-    readMemory m' a bs.length = some bs :=
-  write_then_read m a bs m' h hspan
+theorem C15_write_then_read (m : Mem) (a : Nat) (bs : List Byte) (m' : Mem) (hp : PageGranular m)
+    (h : writeBytesDap m a bs = .ok m') : readMemory m' a bs.length = some bs :=
+  write_then_read m a bs m' hp h
 
 /-! ## Registers (tables extracted from `register.rs` on every run) -/
 
@@ -131,35 +125,27 @@ theorem C15_reg_write_visible (k : RegFile) (r : Nat) (hr : r < numRegs) (v : Na
 /-! ## Disassembly -/
 
 /-- **C15_disasm_masks_patches.**  If the text read from the process agrees with the original
-instructions everywhere except at breakpoint addresses, every breakpoint inside the function carries
-the original byte as `saved`, and no breakpoint sits exactly at the end address, the masked text is the
-original text: the disassembler sees no patch. -/
+instructions everywhere except at breakpoint addresses and every breakpoint inside the function carries
+the original byte as `saved`, the masked text is the original text — wherever else breakpoints sit (the
+end address included): the disassembler sees no patch. -/
 theorem C15_disasm_masks_patches (start stop : Nat) (orig text : List Byte) (bps : List Bp)
     (hlen : orig.length = stop - start) (htl : text.length = orig.length)
-    (hend : ∀ bp ∈ bps, bp.addr ≠ stop)
     (hsaved : ∀ bp ∈ bps, start ≤ bp.addr → bp.addr < stop → orig[bp.addr - start]? = some bp.saved)
     (hagree : ∀ i, i < orig.length → (∀ bp ∈ bps, bp.addr ≠ start + i) → text[i]? = orig[i]?) :
     maskPatches start stop text bps = .ok orig :=
-  disasm_masks_patches start stop orig text bps hlen htl hend hsaved hagree
+  disasm_masks_patches start stop orig text bps hlen htl hsaved hagree
 
-/-- full strength: masking never faults, whatever the breakpoints are. -/
-def C15_disasm_total_full : Prop :=
-  ∀ (start stop : Nat) (text : List Byte) (bps : List Bp), start ≤ stop → text.length = stop - start →
-    ∃ t, maskPatches start stop text bps = .ok t
-
-/-- what holds: no fault when no breakpoint sits exactly at the function's end address. -/
-theorem C15_disasm_total_partial (start stop : Nat) (text : List Byte) (bps : List Bp)
-    (htl : text.length = stop - start) (hend : ∀ bp ∈ bps, bp.addr ≠ stop) :
+/-- **C15_disasm_total** (full strength; false before the repair of the inclusive filter
+`brkpt.addr <= fn_end`): masking never faults, whatever the breakpoints are, and keeps the length. -/
+theorem C15_disasm_total (start stop : Nat) (text : List Byte) (bps : List Bp)
+    (htl : text.length = stop - start) :
     ∃ t, maskPatches start stop text bps = .ok t ∧ t.length = text.length :=
-  disasm_total_partial start stop text bps htl hend
+  disasm_total start stop text bps htl
 
-/-- the filter `brkpt.addr <= fn_end` is inclusive: a breakpoint at the end address indexes one past the
-text.  Replayed on the real code: oracle key `disasm-breakpoint-at-function-end-panics`. -/
-theorem C15_disasm_total_counterexample : ¬ C15_disasm_total_full := by
-  intro h
-  obtain ⟨t, ht⟩ := h 0 1 [0x90] [⟨1, 0⟩] (by decide) (by decide)
-  rw [disasm_end_bp_faults] at ht
-  cases ht
+/-- the witness of the repaired defect `disasm-breakpoint-at-function-end-panics` (it indexed one past the
+text): a breakpoint exactly at the end address is ignored.  Replayed on the real code by `corpus/C15`. -/
+theorem C15_disasm_witness : maskPatches 0 1 [0x90] [⟨1, 0⟩] = .ok [0x90] :=
+  disasm_end_bp_ignored
 
 /-! ## setVariable / setExpression scalars -/
 
@@ -170,38 +156,49 @@ theorem C15_setvar_int_roundtrip (k : IntKind) (s : List Char) (i : Int)
     ∃ bs, parseSetInt k s = some bs ∧ bs.length = k.bytes ∧ decodeInt k bs = i :=
   setvar_int_roundtrip k s i hp hr
 
-/-- full strength: a value that does not fit the variable is refused. -/
-def C15_setvar_range_full : Prop :=
-  ∀ (k : IntKind) (s : List Char) (i : Int), parseInt k.signed (trim s) = some i → ¬ k.inRange i →
-    parseSetInt k s = none
+/-- **C15_setvar_range** (full strength; false before the repair of the `as` casts): a value that does
+not fit the variable is refused. -/
+theorem C15_setvar_range (k : IntKind) (s : List Char) (i : Int)
+    (hp : parseInt k.signed (trim s) = some i) (hr : ¬ k.inRange i) : parseSetInt k s = none :=
+  setvar_range k s i hp hr
 
-/-- the unchanged code truncates with `as`: `300` into a `u8` is accepted and stores 44.
-Replayed on the real code: oracle key `setvalue-out-of-range-truncated`. -/
-theorem C15_setvar_range_counterexample : ¬ C15_setvar_range_full := by
-  intro h
-  have h3 := setvar_u8_300
-  have := h .u8 "300".toList 300 h3.1 h3.2.1
-  rw [h3.2.2] at this
-  cases this
+/-- so: whatever `parse_set_value` accepts for an integer variable is read back as the value written. -/
+theorem C15_setvar_accepted_exact (k : IntKind) (s : List Char) (bs : List Byte)
+    (h : parseSetInt k s = some bs) :
+    ∃ i, parseInt k.signed (trim s) = some i ∧ k.inRange i ∧ bs.length = k.bytes ∧ decodeInt k bs = i :=
+  setvar_accepted k s bs h
+
+/-- the witness of the repaired defect `setvalue-out-of-range-truncated`: `300` into a `u8` stored 44,
+now it is refused.  Replayed on the real code by `corpus/C15`. -/
+theorem C15_setvar_witness : parseInt IntKind.u8.signed (trim "300".toList) = some 300 ∧
+    ¬ IntKind.u8.inRange 300 ∧ parseSetInt .u8 "300".toList = none :=
+  setvar_u8_300
 
 /-! ## Sanity tests (evaluated, *not* proofs) and non-vacuity -/
 
 def twoPages : Mem := fun x => if 4096 ≤ x ∧ x < 12288 then some (UInt8.ofNat (x % 251)) else none
 
 #guard readMemory twoPages 4100 3 == some [UInt8.ofNat (4100 % 251), UInt8.ofNat (4101 % 251), UInt8.ofNat (4102 % 251)]
-#guard readMemory twoPages 12285 3 == none          -- last 3 bytes of the mapping: the defect
+#guard readMemory twoPages 12285 3 == some ([12285, 12286, 12287].map fun x => UInt8.ofNat (x % 251))  -- last 3 bytes of the mapping (failed before the repair)
+#guard readMemory twoPages 12277 11 == some ((List.range 11).map fun i => UInt8.ofNat ((12277 + i) % 251))
+#guard readMemory twoPages 4096 3 == some ([4096, 4097, 4098].map fun x => UInt8.ofNat (x % 251))    -- first bytes of the mapping
+#guard readMemory twoPages 12285 4 == none
 #guard readMemory twoPages 12280 8 == some ((List.range 8).map fun i => UInt8.ofNat ((12280 + i) % 251))
 #guard (match writeBytesDap twoPages 8189 [1, 2, 3, 4, 5, 6] with
         | .ok m' => readMemory m' 8184 16 == some ([8184, 8185, 8186, 8187, 8188].map (fun x => UInt8.ofNat (x % 251)) ++ [1, 2, 3, 4, 5, 6] ++ [8195, 8196, 8197, 8198, 8199].map (fun x => UInt8.ofNat (x % 251)))
         | _ => false)
 #guard (match writeBytesDap twoPages 12285 [1, 2, 3] with | .ok _ => true | _ => false)   -- write of the tail works
 #guard (match writeBytesDap twoPages 12285 [1, 2, 3, 4] with | .err _ => true | _ => false)
-#guard parseSetInt .u8 "300".toList == some [44]
+#guard parseSetInt .u8 "300".toList == none
+#guard parseSetInt .u8 "255".toList == some [255]
+#guard parseSetInt .i8 "-128".toList == some [128]
+#guard parseSetInt .i8 "128".toList == none
+#guard parseSetInt .u128 "340282366920938463463374607431768211455".toList == some (List.replicate 16 255)
 #guard parseSetInt .i8 "-1".toList == some [255]
 #guard parseSetInt .u8 "-1".toList == none
 #guard parseSetInt .i16 " 0x7fff ".toList == some [255, 127]
 #guard (match maskPatches 100 104 [0xCC, 2, 0xCC, 4] [⟨100, 1⟩, ⟨102, 3⟩, ⟨300, 9⟩] with | .ok t => t == [1, 2, 3, 4] | _ => false)
-#guard (match maskPatches 100 104 [1, 2, 3, 4] [⟨104, 9⟩] with | .error e => e == .oob 4 4 | _ => false)
+#guard (match maskPatches 100 104 [1, 2, 3, 4] [⟨104, 9⟩] with | .ok t => t == [1, 2, 3, 4] | _ => false)   -- breakpoint at the end address: ignored
 #guard getRegisterValue (setRegisterValue (fun _ => 7) 16 99) 16 == 99
 
 end BsVerif.MemIO
